@@ -463,3 +463,49 @@ package mail
 //@   requires[C08:wf] m != nil && msg != nil
 //@   ensures[C08:nonnil] r != nil
 //@   loop 1 invariant[C08:nonnil] msg != nil
+
+// ---------------------------------------------------------------------------
+// C11  Rendering is repeatable: what one render emits depends only on state that renders leave alone
+//
+// (1) no Go map is ranged over while output is produced (obligation kind "maporder", props/C11.json)
+// (2) the transfer encoding applied to a file is a function of File.Enc alone, not of the header cache
+//@ at mail.msgWriter.addFiles mail.msgWriter.writeBody#1 before assert[C11:encoding-from-file] encoding == (file.Enc != "" ? file.Enc : "base64")
+// (3) content producers built on a reader leave it at the start on every return, also after a failed copy
+//     (rpos: ghost read position; world.seekfails counts failed Seek calls of caller-supplied seekers)
+//@ func mail.fileFromReader$1 (writer) (n, err)
+//@   ensures[C11:rewound] byteReader.rpos == 0
+//@ func mail.fileFromReadSeeker$1 (writer) (n, err)
+//@   ensures[C11:rewound] reader.rpos == 0 || world.seekfails > old(world.seekfails)
+// (4) multipart boundaries: the boundary a layer is written with is the one cached in the Msg afterwards, and once
+//     one is cached (and no fixed boundary is configured) every later render uses it (shared with C08: the entity
+//     that is hashed while signing and the entity that is emitted carry the same inner boundaries)
+//@ ghost field usedMixed string
+//@ ghost field usedRelated string
+//@ ghost field usedAlt string
+//     everfailed (ghost): a boundary was refused by SetBoundary during this render; it implies mw.err != nil from then on
+//@ ghost field everfailed bool
+//@ pred errinv(mw *mail.msgWriter) = mw.everfailed ==> mw.err != nil
+//@ at mail.msgWriter.startMP multipart.Writer.SetBoundary#1 after ghost[C11:g] mw.everfailed = (mw.everfailed || r0 != nil)
+//@ func mail.msgWriter.startMP (mimeType, boundary) (b)
+//@   requires[C11:errinv] errinv(mw)
+//@   ensures[C11:errinv] errinv(mw) && (old(mw.everfailed) ==> mw.everfailed)
+//@   ensures[C11:boundary-given-is-used] (boundary != "" && !mw.everfailed) ==> b == boundary
+//@   ensures[C08,C11:boundary-nonempty] b != ""
+//@ func mail.msgWriter.getMultipartBoundary (msg, mimetype) (b)
+//@   requires[C08,C11:wf] msg != nil
+//@   ensures[C08,C11:def] b == (msg.boundary != "" ? msg.boundary : ((mimetype in msg.multiPartBoundary) ? msg.multiPartBoundary[mimetype] : ""))
+//@ at mail.msgWriter.writeMsg entry ghost[C11:g] mw.everfailed = false
+//@ at mail.msgWriter.writeMsg entry ghost[C08,C11:g] mw.usedMixed = ""
+//@ at mail.msgWriter.writeMsg entry ghost[C08,C11:g] mw.usedRelated = ""
+//@ at mail.msgWriter.writeMsg entry ghost[C08,C11:g] mw.usedAlt = ""
+//@ at mail.msgWriter.writeMsg mail.msgWriter.startMP#2 after ghost[C08,C11:g] mw.usedMixed = r0
+//@ at mail.msgWriter.writeMsg mail.msgWriter.startMP#3 after ghost[C08,C11:g] mw.usedRelated = r0
+//@ at mail.msgWriter.writeMsg mail.msgWriter.startMP#4 after ghost[C08,C11:g] mw.usedAlt = r0
+//@ func mail.msgWriter.writeMsg (msg)
+//@   requires[C08,C11:wf] mw != nil && msg != nil && msg.multiPartBoundary != nil
+//@   ensures[C08,C11:boundary-cached] (mw.usedMixed != "" ==> ("mixed" in msg.multiPartBoundary) && msg.multiPartBoundary["mixed"] == mw.usedMixed) && (mw.usedRelated != "" ==> ("related" in msg.multiPartBoundary) && msg.multiPartBoundary["related"] == mw.usedRelated) && (mw.usedAlt != "" ==> ("alternative" in msg.multiPartBoundary) && msg.multiPartBoundary["alternative"] == mw.usedAlt)
+//@   loop 1 invariant[C11:errinv] errinv(mw)
+//@   loop 2 invariant[C11:errinv] errinv(mw)
+//@   loop 3 invariant[C11:errinv] errinv(mw)
+//@   loop 4 invariant[C11:errinv] errinv(mw)
+//@   ensures[C11:boundary-once] (mw.err == nil && msg.boundary == "") ==> ((mw.usedMixed != "" && old(("mixed" in msg.multiPartBoundary) && msg.multiPartBoundary["mixed"] != "") ==> mw.usedMixed == old(msg.multiPartBoundary["mixed"])) && (mw.usedRelated != "" && old(("related" in msg.multiPartBoundary) && msg.multiPartBoundary["related"] != "") ==> mw.usedRelated == old(msg.multiPartBoundary["related"])) && (mw.usedAlt != "" && old(("alternative" in msg.multiPartBoundary) && msg.multiPartBoundary["alternative"] != "") ==> mw.usedAlt == old(msg.multiPartBoundary["alternative"])))
